@@ -137,6 +137,13 @@ def configs(tier, seed):
                     for pt, p in _phases(tier, seed, 64.0)[:3]:
                         out.append({'part': 'exact', 'shape': 'ellipse', 'rx': a, 'ry': b, 'theta': th, 'phase': list(p),
                                     'ptype': pt, 'mode': 'grid'})
+    # an extreme a few millionths of a pixel beyond a pixel edge: the grazed row / column belongs to the mask (its weight is tiny, not zero)
+    for r in (2.5 + 2.0 ** -18, 10.5 + 2.0 ** -19, 0.5 + 2.0 ** -20):
+        for p in ((0.0, 0.0), (3.0, -2.0)):
+            out.append({'part': 'exact', 'shape': 'circle', 'r': r, 'phase': list(p), 'ptype': 'generic', 'mode': 'grid'})
+            out.append({'part': 'exact', 'shape': 'ellipse', 'rx': r, 'ry': 0.75 * r, 'theta': 0.0, 'phase': list(p), 'ptype': 'generic', 'mode': 'grid'})
+    # one mask of several million pixels in every tier (storage type and per-pixel values of a large mask)
+    out.append({'part': 'exact', 'mode': 'biggrid', 'shape': 'circle', 'r': 800.5, 'phase': list(GENERIC[int(seed) % 4]), 'ptype': 'generic'})
     # large and thin (the mask is several hundred pixels long): through to_mask on the whole box, also in the quick tier
     for rx, ry, th in ((200.0, 6.25, 0.4), (6.25, 200.0, 0.0), (150.0, 2.5, math.pi / 6)):
         out.append({'part': 'exact', 'shape': 'ellipse', 'rx': rx, 'ry': ry, 'theta': th, 'phase': list(GENERIC[int(seed) % 4]),
@@ -428,6 +435,9 @@ def _mask_arrays(res, case, m):
         res.violation(ID, 'mask_shape', case, f'mask data shape {tuple(data.shape)} but its bbox has shape {want}',
                       list(want), list(data.shape))
         return None
+    if data.dtype != np.float64:
+        res.violation(ID, 'mask_dtype', case, f'the exact / subpixel mask holds {data.dtype} values, overlap fractions are double precision everywhere else',
+                      'float64', str(data.dtype))
     return data, int(bb.ixmin), int(bb.iymin)
 
 
@@ -578,6 +588,15 @@ def check_exact(res, trk, cfg, vias=('to_mask', 'kernel')):
         else:
             sub = _oracle(cfg, ix0, iy0, nx, ny, full=max(rx, ry) < 64.0)
         _judge(res, trk, cfg, 'to_mask', data, sub, ix0, iy0, do_sum=True)
+        # nothing of the shape may lie outside the mask's box: every reference pixel of the rim around it is empty
+        if ix0 >= kb[0] and iy0 >= kb[2] and ix0 + nx <= kb[1] and iy0 + ny <= kb[3]:
+            outside = np.array(po.ref, dtype=float, copy=True)
+            outside[iy0 - kb[2]:iy0 - kb[2] + ny, ix0 - kb[0]:ix0 - kb[0] + nx] = 0.0
+            if outside.size and float(outside.max()) > 1e-13:
+                j, i = np.unravel_index(int(np.argmax(outside)), outside.shape)
+                res.violation(ID, 'exact_weight_outside_box', _case(cfg, 'to_mask'),
+                              f'{_desc(cfg)}: pixel ({kb[0] + int(i)}, {kb[2] + int(j)}) overlaps the shape by {float(outside[j, i])!r} but lies outside the '
+                              f'mask box x[{ix0},{ix0 + nx}) y[{iy0},{iy0 + ny})', 0.0, float(outside[j, i]))
 
 
 def _slice(po, i0, j0, nx, ny):
